@@ -31,6 +31,7 @@ import (
 	"verifharness/ldsref"
 	"verifharness/persona"
 	"verifharness/readcheck"
+	"verifharness/ref/ber"
 	"verifharness/ref/ecc"
 	"verifharness/ref/mac"
 )
@@ -470,7 +471,23 @@ func runSession(rt failer, o persona.Opts, libSeed, mseed []byte) {
 							evid.Infra(rt, "no authenticated region located in %s", name)
 						}
 						reg := regs[st.intn(len(regs))]
-						i = reg[0] + st.intn(reg[1]-reg[0])
+						// ... and, inside them, only CONTENT octets of primitive elements: an identifier or
+						// length octet can be changed into another encoding of the same value (0F -> 80, an
+						// indefinite length that the decoder closes at the end of its parent), which a
+						// verifier that re-encodes the signed attributes in DER - as RFC 5652 5.4 has it do -
+						// rightly accepts: the document's content did not change
+						leaf := primitiveContent(raw)
+						var cand []int
+						for j := reg[0]; j < reg[1]; j++ {
+							if leaf[j] {
+								cand = append(cand, j)
+							}
+						}
+						if len(cand) == 0 {
+							evid.Count("file-mutation-no-content-octet-in-region", 1)
+							continue
+						}
+						i = cand[st.intn(len(cand))]
 					}
 					mut[i] ^= byte(1 + st.intn(255))
 					checkFileTampered(rt, p, r.DocEx, name, mut, i, rep)
@@ -651,6 +668,29 @@ func jointReplacement(ex *document.DocumentEx, o persona.Opts, st *rng) *documen
 // authenticatedRegions locates, inside an EF.SOD / EF.CardSecurity file, the
 // byte ranges a signature covers: the eContent, the signed attributes
 // (content octets), the signature value and the DS TBSCertificate.
+// primitiveContent marks the content octets of the primitive elements of a BER file (independent reader).
+func primitiveContent(file []byte) []bool {
+	out := make([]bool, len(file))
+	nodes, err := ber.Parse(file, ber.Options{})
+	if err != nil {
+		return out
+	}
+	var walk func(ns []*ber.Node)
+	walk = func(ns []*ber.Node) {
+		for _, n := range ns {
+			if n.Constructed {
+				walk(n.Children)
+				continue
+			}
+			for j := n.End - len(n.Value); j < n.End; j++ {
+				out[j] = true
+			}
+		}
+	}
+	walk(nodes)
+	return out
+}
+
 func authenticatedRegions(p *persona.Persona, file []byte, wrapped77 bool) [][2]int {
 	var out [][2]int
 	add := func(part []byte, skip int) {
